@@ -362,10 +362,17 @@ def m_F40(case, backend, f):
     return any(e[1] == "cum_sum" and not (len(e) > 3 and e[3].get("arrange")) for _, _, e in fns(case))
 
 
+def m_F41(case, backend, f):
+    """Polars: horizontal max / min over broadcast scalars only"""
+    if backend != "polars" or f.get("exc") != "InvalidOperationError" or "DataFrame height" not in (f.get("msg") or ""):
+        return False
+    return any(e[1] in ("horizontal_max", "horizontal_min") for _, _, e in fns(case))
+
+
 MATCHERS = {
     "F06": m_F06, "F07": m_F07, "F09": m_F09, "F13": m_F13, "F15": m_F15, "F16": m_F16, "F19": m_F19,
     "F20": m_F20, "F21": m_F21, "F23": m_F23, "F27": m_F27, "F28": m_F28, "F29": m_F29, "F30": m_F30,
-    "F31": m_F31, "F32": m_F32, "F33": m_F33, "F37": m_F37, "F38": m_F38, "F39": m_F39, "F40": m_F40,
+    "F31": m_F31, "F32": m_F32, "F33": m_F33, "F37": m_F37, "F38": m_F38, "F39": m_F39, "F40": m_F40, "F41": m_F41,
 }
 
 
@@ -436,6 +443,8 @@ PROBES = {
               ["mutate", [["w", ["case", [[["fn", "greater_than", [["col", "P@1", "v"], ["lit", 3]]], col("a")]], col("id")]]]],
               ["mutate", [["z", ["fn", "min", [["col", "P@2", "w"]], {}]]]]]),
     "F40": P([["arrange", [["ord", col("id"), False, None]]], ["mutate", [["x", ["fn", "cum_sum", [col("a")], {}]]]]]),
+    "F41": {**P([["mutate", [["y", ["fn", "sum", [["fn", "add", [col("a"), ["lit", 2]]]], {}]]]],
+                 ["mutate", [["v", ["fn", "horizontal_max", [["c", "y"], ["c", "y"]]]]]]]), "only": ["polars"]},
     "F31": P([["join", {"id": "Q", "src": "t", "steps": [["alias", False]]},
                [["fn", "equal", [col("id"), ["col", "Q@1", "id"]]], ["fn", "equal", [col("id"), ["col", "Q@1", "id"]]]],
                "inner", None]]),
